@@ -902,5 +902,89 @@ def C12(tier):
                    '%d random histories x %d steps over 8 keys / 7 values against OrderedDict, reopen/pickle' % (nh, steps), cases, bad)]
 
 
+# ====================================================================== queues (C10)
+def C10(tier):
+    """push/pull/peek against per-prefix reference deques; prefixes that do not extend one another by '-'
+    (that interference is the recorded finding), ordinary keys outside the ranges, expiring items."""
+    import collections
+    import random
+    import diskcache
+    from diskcache import core
+    seed0 = int(os.environ.get('VERIF_SEED', '0') or 0)
+    nh, steps = (16, 80) if tier == 'quick' else (120, 160)
+    bad = None
+    cases = 0
+    prefixes = [None, 'q', 'jobs', 'a-b', 'z9']
+    for h in range(nh):
+        rnd = random.Random(seed0 * 1000 + h)
+        d = tempfile.mkdtemp()
+        clock = [1000.0]
+        real = core.time.time
+        core.time.time = lambda: clock[0]
+        try:
+            c = diskcache.Cache(d, cull_limit=0, disk_min_file_size=16)
+            ref = {p: collections.deque() for p in prefixes}
+            plain = {}
+            for step in range(steps):
+                op = rnd.choice(['push', 'push', 'pushf', 'pull', 'pullb', 'peek', 'peekb', 'tick', 'plain', 'plainget'])
+                p = rnd.choice(prefixes)
+                where = 'history %d step %d %s(prefix=%r) at t=%r' % (h, step, op, p, clock[0])
+                cases += 1
+
+                def live(dq, front):
+                    # expired items at the chosen end are skipped (and removed)
+                    while dq:
+                        item = dq[0] if front else dq[-1]
+                        if item[2] is not None and item[2] <= clock[0]:
+                            dq.popleft() if front else dq.pop()
+                        else:
+                            return item
+                    return None
+                if op in ('push', 'pushf'):
+                    v = rnd.choice([1, 'v', b'w' * 40, None, (1, 2)])
+                    ttl = rnd.choice([None, None, 3, 0])
+                    side = 'back' if op == 'push' else 'front'
+                    k = c.push(v, prefix=p, side=side, expire=ttl)
+                    item = (k, v, None if ttl is None else clock[0] + ttl)
+                    ref[p].append(item) if side == 'back' else ref[p].appendleft(item)
+                    if c.get(k) is None and v is not None and ttl != 0:
+                        bad = where + ': key %r returned by push does not identify the item' % (k,)
+                elif op in ('pull', 'pullb', 'peek', 'peekb'):
+                    front = op in ('pull', 'peek')
+                    exp = live(ref[p], front)
+                    f = c.pull if op.startswith('pull') else c.peek
+                    got = f(prefix=p, side='front' if front else 'back', default=('EMPTY', None))
+                    if exp is None:
+                        if got != ('EMPTY', None):
+                            bad = where + ': returned %r from an empty queue' % (got,)
+                    else:
+                        if not (got[0] == exp[0] and same(got[1], exp[1])):
+                            bad = where + ': returned %r, reference %r' % (got, exp[:2])
+                        if op.startswith('pull'):
+                            ref[p].popleft() if front else ref[p].pop()
+                elif op == 'tick':
+                    clock[0] += rnd.choice([1, 2, 5])
+                elif op == 'plain':
+                    k = rnd.choice(['plainkey', 'zz', -5, 10 ** 15 + 7, b'q-1', 'q', 'jobs'])
+                    c[k] = step
+                    plain[k] = step
+                elif op == 'plainget':
+                    for k, v in plain.items():
+                        if c.get(k) != v:
+                            bad = where + ': ordinary key %r disturbed' % (k,)
+                if bad:
+                    break
+        except Exception as e:
+            import traceback
+            bad = bad or 'history %d raised %r %s' % (h, e, traceback.format_exc()[-300:])
+        finally:
+            core.time.time = real
+            shutil.rmtree(d, ignore_errors=True)
+        if bad:
+            break
+    return [result('C10.standin.queue_histories', bad is None,
+                   '%d random histories x %d steps over 5 prefixes (none extending another by "-"), both sides, ttl, ordinary keys' % (nh, steps), cases, bad)]
+
+
 if __name__ == '__main__':
     main()
